@@ -66,7 +66,11 @@ class IntervalSegmenter(_PanelToPanelTransformer):
                 raise ValueError(
                     "The number of intervals must be half the number of time points"
                 )
-            self.intervals_ = np.array_split(self._time_index, self.intervals)
+            # store start (inclusive) and end (exclusive) of each interval
+            self.intervals_ = [
+                np.array([interval[0], interval[-1] + 1])
+                for interval in np.array_split(self._time_index, self.intervals)
+            ]
 
         else:
             raise ValueError(
